@@ -12,8 +12,9 @@ def make_recorder(W, log):
     BF = W.load("sktime.forecasting.base._base").BaseForecaster
 
     class Rec(BF):
-        def __init__(self, p=0):
+        def __init__(self, p=0, nan_last=False):
             self.p = p
+            self.nan_last = nan_last
             super().__init__()
 
         def fit(self, y, X=None, fh=None, **kw):
@@ -23,14 +24,17 @@ def make_recorder(W, log):
             return self
 
         def update(self, y, X=None, update_params=True):
-            log.append({"op": "update", "idx": L(y.index), "vals": L(y.values), "xidx": None if X is None else L(X.index), "p": S(self.p)})
+            log.append({"op": "update", "idx": L(y.index), "vals": L(y.values), "xidx": None if X is None else L(X.index), "p": S(self.p), "update_params": update_params})
             self._cut = y.index[-1]
             return self
 
         def predict(self, fh=None, X=None, **kw):
             labs = L(fh.to_absolute(self._cut).to_pandas())
             log.append({"op": "predict", "labels": labs, "xidx": None if X is None else L(X.index), "cutoff": S(self._cut), "p": S(self.p)})
-            return pd.Series([W.uf("forecast", [self.p, self._cut, l], "iii>r") for l in labs], index=pd.Index(labs))
+            vals = [W.uf("forecast", [self.p, self._cut, l], "iii>r") for l in labs]
+            if getattr(self, "nan_last", False) and len(vals) > 1:
+                vals[-1] = float("nan")  # a forecaster that cannot forecast its last requested step
+            return pd.Series(vals, index=pd.Index(labs))
 
         @property
         def cutoff(self):
@@ -39,7 +43,18 @@ def make_recorder(W, log):
     return Rec
 
 
-def make_score(W, gib=False, name="stub"):
+def score_expr(W, a):
+    """the stub metric: an uninterpreted function of all values handed to it; when a missing prediction / observation
+    reaches it, a function of the other values and of where the holes are (an honest metric would give NaN or raise)"""
+    isn = lambda v: isinstance(v, float) and v != v  # noqa: E731
+    if any(isn(v) for v in a):
+        holes = [i for i, v in enumerate(a) if isn(v)]
+        b = [v for v in a if not isn(v)]
+        return W.uf("score_%d_holes%s" % (len(a), "_".join(str(i) for i in holes)), b, "r" * len(b) + ">r")
+    return W.uf("score_%d" % len(a), a, "r" * len(a) + ">r")
+
+
+def make_score(W, gib=False, name="stub", honest_nan=False):
     class Score:
         greater_is_better = gib
 
@@ -48,7 +63,9 @@ def make_score(W, gib=False, name="stub"):
 
         def __call__(self, y_true, y_pred):
             a = L(y_true.values) + L(y_pred.values)
-            return W.uf("score_%d" % len(a), a, "r" * len(a) + ">r")
+            if honest_nan and any(isinstance(v, float) and v != v for v in a):
+                return float("nan")  # like a plain numpy metric
+            return score_expr(W, a)
 
     return Score()
 
@@ -115,6 +132,7 @@ class C07(Harness):
             inp["x"] = fresh_reals(ctx, "x", nn)
         inp["return_data"] = bool(ctx.fresh_bool("return_data"))
         inp["prefitted"] = bool(ctx.fresh_bool("prefitted"))  # the forecaster handed to evaluate() was fitted on the whole series before
+        inp["nan_last"] = K > 1 and inp["prefitted"] and not inp["return_data"]  # (tied to other flags to keep the path count)
         inp["range_index"] = inp["prefitted"] == inp["return_data"]
         if inp["range_index"]:
             ctx.assume(inp["g"] == 1)  # (a symbolic RangeIndex step makes the length computation nonlinear: spaced labels use an Int64Index)
@@ -143,7 +161,7 @@ class C07(Harness):
         log = []
         Rec = make_recorder(W, log)
         sc = make_score(W, gib=bool(inp["return_data"]))  # the scorer's direction flag must not change the reported value
-        fc = Rec()
+        fc = Rec(nan_last=bool(inp.get("nan_last")))
         if inp.get("prefitted"):
             fc.fit(y, X)
             del log[:]
@@ -214,8 +232,12 @@ class C07(Harness):
                 P.eq("predict-test-points", a, lab_of(p))
             ytrue = [y[int(p)] if P.sym else y[p] for p in te]
             ypred = [W.uf("forecast", [0, c, lab_of(p)], "iii>r") for p in te]
+            if inp.get("nan_last") and len(ypred) > 1:
+                ypred[-1] = float("nan")
             a = ytrue + ypred
-            P.eq("score-is-metric(y_true,y_pred)", row["score"], W.uf("score_%d" % len(a), a, "r" * len(a) + ">r"))
+            P.eq("score-is-metric(y_true,y_pred)", row["score"], score_expr(W, a))
+            if want_op == "update":
+                P.check(lab, call.get("update_params") is True, {"what": "the forecaster is updated with parameter re-estimation (update's default)", "update_params": call.get("update_params")})
             if cell["withX"]:
                 P.check("X-train", call["xidx"] is not None and len(call["xidx"]) == len(tr))
                 if call["xidx"] is not None and len(call["xidx"]) == len(tr):
